@@ -196,6 +196,23 @@ def one_input(ctx, inp, cid, tmp, heavy=True):
             g.es["w"] = [float(W[e.tuple]) for e in g.es]
         return Network.FromIGraph(g, silence_level=3)
     ign = build("FromIGraph[shuffled]", ig_s)
+
+    # the caller's igraph object is used twice (and the embedded graph of a
+    # network is handed to FromIGraph again): both networks are the input
+    def ig_twice():
+        g = igraph.Graph(n=n, edges=[tuple(map(int, e)) for e in es],
+                         directed=d)
+        if w is not None:
+            g.vs["node_weight_nsi"] = list(map(float, w))
+        if W is not None:
+            g.es["w"] = [float(W[e.tuple]) for e in g.es]
+        first = Network.FromIGraph(g, silence_level=3)
+        first.degree()
+        return Network.FromIGraph(g, silence_level=3)
+    build("FromIGraph[same-object-twice]", ig_twice)
+    if ign is not None:
+        build("FromIGraph[graph-of-a-network]",
+              lambda: Network.FromIGraph(ign.graph, silence_level=3))
     if ign is not None:
         build("copy-of-FromIGraph[shuffled]", ign.copy)
         build("copy-of-copy-of-FromIGraph[shuffled]",
@@ -401,6 +418,13 @@ def run(ctx):
         n = len(A)
         w = None if r.random() < 0.25 else G.pos_weights(r, n)
         W = None if (r.random() < 0.2) else G.link_attr(r, A, d)
+        if W is not None and r.random() < 0.4:
+            # link attributes are arbitrary reals: either sign
+            sg = r.choice([-1.0, 1.0], size=W.shape)
+            if not d:
+                sg = np.triu(sg, 1)
+                sg = sg + sg.T
+            W = W * sg
         inp = {"A": A.astype(np.int8), "directed": d, "w": w, "W": W}
         with ctx.guard(60):
             one_input(ctx, inp, cid, tmp,
